@@ -267,12 +267,23 @@ def rule_object_list(ctx: Ctx) -> None:
             ctx.require(same is not None, "interpolate_object_list: pairing test is not uuid equality")
             ap = [(a.recv, S(a.args[0])) for a in appends(ib) if a.recv == "output_object_list"]
             fl = ib.env.get("found")
+            has_flag = any(isinstance(n_, ast.Name) and n_.id == "found" for n_ in ast.walk(fi.node))
+            for_else = bool(getattr(inner[0].node, "orelse", None))
             ids_here = [S(a.args[0]) for a in appends(ib) if a.recv == "id_list"]
-            if same:
+            if not has_flag:
+                # `for ... else` instead of a flag: the match branch must leave the loop with break, the else branch keeps the unpaired object
+                ctx.require(for_else, "interpolate_object_list: neither a `found` flag nor a for-else marks unpaired objects of the first list")
+                oe = inner[0].node.orelse
+                kept_else = [ast.unparse(x) for x in oe if isinstance(x, ast.Expr)]
+                ctx.check(any(f"output_object_list.append(deepcopy({o1}))" == k.replace(" ", "") for k in kept_else), "C17-object-list", "interpolate_object_list", "only-in-first",
+                          f"the else branch of the search loop does {kept_else}; an object present only in the first list must be kept (deepcopy)", fi=fi)
+                if same:
+                    ctx.check(ib.exit == ("break",), "C17-object-list", "interpolate_object_list", "paired:leaves-loop", "a uuid match does not leave the search loop: the else branch would keep the object a second time", fi=fi)
+            elif same:
                 ctx.check(fl is not None and S(fl) == "True", "C17-object-list", "interpolate_object_list", "paired:flag", f"on a uuid match the `found` flag becomes `{S(fl) if fl is not None else 'unchanged'}`; it must be set (the object would be kept a second time as unpaired)", fi=fi)
                 ctx.check(ids_here in ([f"{o1}.uuid"], [f"{o2}.uuid"]), "C17-object-list", "interpolate_object_list", "paired:id-registered",
                           f"on a uuid match the handled ids gain {ids_here}; the pair's uuid must be registered, otherwise the second loop keeps the later object again (duplicate)", fi=fi)
-            else:
+            elif has_flag:
                 ctx.check(fl is None, "C17-object-list", "interpolate_object_list", "not-paired:flag", f"objects with different uuid set the `found` flag to `{S(fl) if fl is not None else None}`", fi=fi)
             if same:
                 n_found += 1
@@ -282,6 +293,9 @@ def rule_object_list(ctx: Ctx) -> None:
                 ctx.check(not ap, "C17-object-list", "interpolate_object_list", "not-paired", "objects with different uuid are appended", fi=fi)
         found = fact_where(bp, lambda k: S(strip_v(k)) == "truthy:found")
         f0 = inner[0].pre.get("found") if inner else None
+        if not any(isinstance(n_, ast.Name) and n_.id == "found" for n_ in ast.walk(fi.node)):
+            n_missing += 1
+            continue
         ctx.check(f0 is not None and S(f0) == "False", "C17-object-list", "interpolate_object_list", "flag-starts-false", f"before searching the second list the `found` flag is `{S(f0) if f0 is not None else None}`; it must start False (an unpaired object of the first list would be dropped)", fi=fi)
         ap = [(a.recv, S(a.args[0])) for a in appends(bp) if a.recv == "output_object_list"]
         if found is False:
